@@ -21,8 +21,10 @@ d = P.driver('c14', ['<glm/glm.hpp>', '<glm/ext/scalar_ulp.hpp>', '<glm/ext/vect
                      '<glm/ext/matrix_relational.hpp>', '<glm/ext/quaternion_float.hpp>', '<glm/ext/quaternion_double.hpp>',
                      '<glm/ext/quaternion_relational.hpp>', '<glm/gtc/epsilon.hpp>'])
 contracts = []
-NMAX = 64          # bound of the scalar n-step obligations (reported as bounded, never as proved)
+NMAX = 64          # bound of the scalar n-step obligations (reported as bounded, never as proved), thorough tier:
+                   # a chain of 64 dependent increments is ~10 min of SAT time per obligation (measured, cadical, idle machine)
 UNW_N = NMAX + 2   # loop of n <= 64 iterations: 65 tests of the loop condition
+NMAX_Q = 16        # the same obligations with bound 16 (seconds) for the per-change tier
 NMAX_V = 8         # bound of the vector n-step obligations (relational: two copies of every loop per component)
 UNW_NV = NMAX_V + 2
 UNW = 8            # for(i < L), L <= 4, where clang did not unroll it
@@ -118,7 +120,10 @@ for alias, (fnext, fprev, fdist, F1, FV) in (
             d.shim(s1, cpp, [(cpp, 'x')], 'return glm::%s(x);' % fname)
             C(s1, 'glm::%s(%s)  %s' % (fname, cpp, F1), ensures=[(cname, step_clause(t, 'x', 'RESULT', sgn))])
             d.shim(sn, cpp, [(cpp, 'x'), (NT, 'n')], 'return glm::%s(x, n);' % fname)
-            C(sn, 'glm::%s(%s, int)  %s' % (fname, cpp, F1), unwind=UNW_N, bounded=BND, requires=n_req(['n']),
+            C(sn, 'glm::%s(%s, int)  %s' % (fname, cpp, F1), unwind=NMAX_Q + 2, bounded='n <= %d' % NMAX_Q, requires=n_req(['n'], NMAX_Q),
+              ensures=[('equals_n_single_steps', nstep_clause(t, 'x', 'n', 'RESULT', sgn))])
+            d.shim(sn + '64', cpp, [(cpp, 'x'), (NT, 'n')], 'return glm::%s(x, n);' % fname)
+            C(sn + '64', 'glm::%s(%s, int)  %s' % (fname, cpp, F1), 'thorough', unwind=UNW_N, bounded=BND, requires=n_req(['n']), timeout=3600,
               ensures=[('equals_n_single_steps', nstep_clause(t, 'x', 'n', 'RESULT', sgn))])
             for L in LS:
                 xs, ns = names(L, 'x'), names(L, 'n')
@@ -152,11 +157,12 @@ for alias, (fnext, fprev, fdist, F1, FV) in (
             ('ulp_count_across_zero', '%s || %s == %s || !(%s) || %s' % (nn, T['sign'] % 'x', T['sign'] % 'y', fits, val)),
         ])
         sc = 'glm_%s_of_%s_%s_s' % (fdist, fnext, t)
-        d.shim(sc, dret, [(cpp, 'x'), (NT, 'n')], 'return glm::%s(x, glm::%s(x, n));' % (fdist, fnext))
         o, N = T['ord'] % 'x', '(s64)(s8)n'
-        C(sc, 'glm::%s(x, glm::%s(x, n))  %s' % (fdist, fnext, F1), unwind=UNW_N, bounded=BND, requires=n_req(['n']),
-          ensures=[('distance_to_nth_successor_is_n', '!%s || !(%s + %s <= %s) || %s == %s' % (
-              T['fin'] % 'x', o, N, T['inf'], T['dres'] % 'RESULT', '(s64)(s8)n' if t == 'f32' else '(u64)(s64)(s8)n'))])
+        for nm, nmax, tr, to in ((sc, NMAX_Q, 'quick', 900), (sc + '64', NMAX, 'thorough', 3600)):
+            d.shim(nm, dret, [(cpp, 'x'), (NT, 'n')], 'return glm::%s(x, glm::%s(x, n));' % (fdist, fnext))
+            C(nm, 'glm::%s(x, glm::%s(x, n))  %s' % (fdist, fnext, F1), tr, unwind=nmax + 2, bounded='n <= %d' % nmax, requires=n_req(['n'], nmax), timeout=to,
+              ensures=[('distance_to_nth_successor_is_n', '!%s || !(%s + %s <= %s) || %s == %s' % (
+                  T['fin'] % 'x', o, N, T['inf'], T['dres'] % 'RESULT', '(s64)(s8)n' if t == 'f32' else '(u64)(s64)(s8)n'))])
         for L in LS:
             xs, ys = names(L, 'x'), names(L, 'y')
             vd = 'glm_%s_%s_v%d' % (fdist, t, L)
